@@ -12,8 +12,8 @@ MANIFEST = {
             "typesutil is tied to go/types by the identifier comparison. Labels, struct fields and methods are outside the lexical model. Deviations of the unchanged "
             "tree from the documented invariants that need a gogen API change (one position for all names of a multi-name declaration, none for range / for-phrase "
             "variables; labels not recorded; `append` recorded as a gogen template function; the class-file receiver's synthesized type identifier in Types) are "
-            "listed in known_findings.txt and reported as KNOWN-FINDING. Types-map completeness/agreement with go/types for non-identifier expressions is counted, "
-            "not required (the property does not state it).",
+            "listed in known_findings.txt and reported as KNOWN-FINDING. Every expression go/types assigns a type to must have an entry in Types (Info doc: 'invalid expressions are "
+            "omitted'); agreement of the recorded type strings for non-identifier expressions is only counted (untyped constants are recorded before conversion).",
     "technique": "Lean 4 proof (induction over the event stream / well-nested blocks) + differential tie (scope model vs go/types; typesutil vs go/types) + invariant "
                  "oracle on real Info dumps",
 }
